@@ -70,6 +70,7 @@ package chacha20
 
 //@ func (*Cipher).XORKeyStream
 //@ props C03
+//@ reindex
 //@ requires cinv(s)
 //@ requires ref(dst) != ref(s.buf[:]) && ref(src) != ref(s.buf[:])
 //@ panics_when len(src) > 0 && (len(dst) < len(src) ||
